@@ -56,3 +56,10 @@ Fixpoint res_while {St : Type} (fuel : nat) (body : St -> result (bool * St)) (s
   | O => Err 98
   | S n => dor r <- body s; if fst r then res_while n body (snd r) else Ok (snd r)
   end.
+
+(* a `for` loop with `break`: the body answers (go on?, state) *)
+Fixpoint res_fold_brk {St A : Type} (f : St -> A -> result (bool * St)) (l : list A) (s : St) : result St :=
+  match l with
+  | [] => Ok s
+  | a :: r => dor x <- f s a; if fst x then res_fold_brk f r (snd x) else Ok (snd x)
+  end.
